@@ -22,11 +22,25 @@ from .. import core, tlc
 from ..core import Report, small
 
 
-def inst_case(cid: str, objs: list, dist, power, hz: int, scale: int = 1) -> dict:
+def as_sequence(data: list, kind: str):
+    """The same objects as another kind of sequence (the constructor accepts any iterable)."""
+    import collections
+    if kind == "tuple":
+        return tuple(data)
+    if kind == "deque":
+        return collections.deque(data)
+    if kind == "range" and data == list(range(len(data))):
+        return range(len(data))
+    if kind == "ndarray":
+        return np.array(data, dtype=np.int64)
+    return list(data)
+
+
+def inst_case(cid: str, objs: list, dist, power, hz: int, scale: int = 1, seq: str = "list") -> dict:
     from moptipyapps.order1d.instance import Instance
     n0 = len(objs)
     # objects carry their original position as tag, so that duplicates stay distinguishable
-    data = list(range(n0))
+    data = as_sequence(list(range(n0)), seq)
     inst = Instance.from_sequence_and_distance(
         data, lambda a, b: dist(objs[a], objs[b]), power, hz, ("pos",), lambda a: f"o{a + 1}")
     dm = [[small(int(round(dist(objs[a], objs[b]) * scale))) for b in range(n0)] for a in range(n0)]
@@ -35,7 +49,20 @@ def inst_case(cid: str, objs: list, dist, power, hz: int, scale: int = 1) -> dic
             "horizon": small(inst.horizon), "tags": tags,
             "dist": [[small(int(v)) for v in r] for r in inst.distances.tolist()],
             "flows": [[small(int(v)) for v in r] for r in inst.flows.tolist()],
-            "power": power, "objects": [str(o) for o in objs]}
+            "power": power, "objects": [str(o) for o in objs], "sequence_type": seq}
+
+
+def big_case(cid: str, n: int, hz: int, rng: random.Random) -> dict:
+    """n pairwise distinct objects: only what TLC can still afford is judged (see Trace_Order!Big)."""
+    from moptipyapps.order1d.instance import Instance
+    objs = list(range(n))
+    rng.shuffle(objs)
+    inst = Instance.from_sequence_and_distance(as_sequence(list(range(n)), rng.choice(["list", "tuple", "range"])),
+                                               lambda a, b: abs(objs[a] - objs[b]), 1, hz, ("pos",),
+                                               lambda a: f"o{a + 1}")
+    return {"id": cid, "kind": "big", "nexp": n, "n": small(inst.n), "hz": small(hz), "horizon": small(inst.horizon),
+            "dist": [[small(int(v)) for v in r] for r in inst.distances.tolist()],
+            "flows": [[small(int(v)) for v in r] for r in inst.flows.tolist()]}
 
 
 def run(prop: str, tier: str, seed: int) -> int:
@@ -106,7 +133,8 @@ def run(prop: str, tier: str, seed: int) -> int:
         power = rng.choice([1, 2, 3, 1.5, 2.5])
         hz = rng.choice([1, 2, 3, 5, 100])
         try:
-            cases.append(inst_case(f"inst-{k}", objs, dist, power, hz, scale))
+            cases.append(inst_case(f"inst-{k}", objs, dist, power, hz, scale,
+                                   seq=rng.choice(["list", "list", "tuple", "deque", "range", "ndarray"])))
             rep.family("ordering-instances", 1, 1)
             rep.nontrivial += 1
         except ValueError as ex:
@@ -135,6 +163,11 @@ def run(prop: str, tier: str, seed: int) -> int:
         cases.append({"id": f"swap-{k}", "kind": "swap", "pairs": pairs})
         rep.family("random-permutation-pairs", len(pairs), len(pairs))
         rep.nontrivial += len(pairs)
+    # many objects: index storage beyond the 8-bit ranges
+    for n in ([129, 257] if tier == "quick" else [127, 128, 129, 200, 255, 256, 257, 300]):
+        cases.append(big_case(f"big-{n}", n, rng.choice([1, 2, 5]), rng))
+        rep.family("many-distinct-objects(127..300)", 1, 1)
+        rep.nontrivial += 1
     vs = core.validate("order1d/Trace_Order", cases, shards=14)
     core.classify(rep, vs, {c["id"]: c for c in cases}, family="recorded")
     rep.traces += sum(len(c.get("pairs", [1])) for c in cases)
